@@ -389,9 +389,18 @@ func (c *Collection) Upsert(query, repl, update bsonkit.Doc, arrayFilters bsonki
 
 	// apply update if present
 	if update != nil {
+		// get the id given by the query
+		queryID := bsonkit.Get(doc, "_id")
+
+		// apply update
 		_, err = Apply(doc, query, update, true, arrayFilters)
 		if err != nil {
 			return nil, err
+		}
+
+		// the update may not change the id given by the query
+		if queryID != bsonkit.Missing && !sameID(queryID, bsonkit.Get(doc, "_id")) {
+			return nil, fmt.Errorf("document _id is immutable")
 		}
 	}
 
